@@ -324,10 +324,10 @@ def pair_scenarios(ctx):
         ('alone', [mkop('assignLit', X, lit=base), mkop('assignLit', Y, lit=b'A'), mkop('reserveSpace', X, n=7)]),
         ('terminated', [mkop('assignLit', Y, lit=base), mkop('assign', X, Y), mkop('cstr', Y)]),
     ]
-    pn = [(0, 0), (0, 1), (1, 1), (1, -1), (0, -1), (3, -1), (-1, 0), (1, 3)]
+    pn = [(0, 0), (0, 1), (1, 1), (1, -1), (0, -1), (3, -1), (-1, 0), (1, 3), (2, -2)]
     op1 = [mkop('assign', X, Y), mkop('assign', X, X), mkop('assignLit', X, lit=b''), mkop('assignLit', X, lit=b'A'), mkop('clear', X),
            mkop('append', X, X), mkop('append', X, Y), mkop('appendLit', X, lit=b''), mkop('appendLit', X, lit=b'a'), mkop('pushBack', X, c=65),
-           mkop('rawAppend', X, lit=b'', n=0), mkop('rawAppend', X, lit=b'', n=3), mkop('rawAppend', X, lit=b'a', n=0), mkop('rawAppend', X, lit=b'a', n=3),
+           mkop('rawAppend', X, lit=b'', n=0), mkop('rawAppend', X, lit=b'', n=3), mkop('rawAppend', X, lit=b'a', n=0), mkop('rawAppend', X, lit=b'a', n=3), mkop('rawAppend', X, lit=b'', n=-2),
            mkop('appendf', X, X), mkop('appendf', X, Y), mkop('printf', X, X), mkop('printf', X, Y), mkop('toLower', X), mkop('toUpper', X),
            mkop('setAt', X, pos=0, c=65), mkop('setAt', X, pos=5, c=65), mkop('cstr', X),
            mkop('reserveSpace', X, n=0), mkop('reserveSpace', X, n=1), mkop('reserveSpace', X, n=7), mkop('reserveSpace', X, n=268435456),
@@ -338,8 +338,9 @@ def pair_scenarios(ctx):
         op1 += [mkop('consume', X, X, n=n), mkop('consume', X, Y, n=n)]
     for f1, f2 in ((True, True), (True, False), (False, True)):
         op1 += [mkop('trim', X, X, f1=f1, f2=f2), mkop('trim', X, Y, f1=f1, f2=f2)]
-    suites = [[mkop('appendLit', X, lit=b'A'), mkop('appendLit', Y, lit=b'a'), mkop('cstr', X), mkop('setAt', Y, pos=0, c=97)],
-              [mkop('cstr', Y), mkop('pushBack', X, c=65), mkop('toUpper', Y), mkop('rawAppend', Y, lit=b'a', n=0), mkop('append', X, Y)]]
+    # the probes write bytes that occur nowhere else, so that a write landing in a sibling's bytes cannot go unnoticed
+    suites = [[mkop('appendLit', X, lit=b'Z'), mkop('appendLit', Y, lit=b'z'), mkop('cstr', X), mkop('setAt', Y, pos=0, c=122)],
+              [mkop('cstr', Y), mkop('pushBack', X, c=90), mkop('toUpper', Y), mkop('rawAppend', Y, lit=b'q', n=0), mkop('append', X, Y)]]
     trials = []
     for name, setup in setups:
         for o in op1:
